@@ -357,16 +357,17 @@ def gen_using(rng, exhaustive_fmt=None):
     if exhaustive_fmt is not None:
         fmt = exhaustive_fmt
     else:
-        fmt = rng.choice(["###", "###.##", "#,###", "##,###.#", "\\  \\", "!", "Total: ### and \\ \\!", "a#b#c", "#.#", "##", "\\\\", "x\\   \\y###.###z", "####.#"])
+        fmt = rng.choice(["###", "###.##", "#,###", "##,###.#", "###,###", "#,###,###.##", "\\  \\", "!", "Total: ### and \\ \\!", "a#b#c", "#.#", "##", "\\\\", "x\\   \\y###.###z", "####.#"])
     nv = rng.choice([1, 1, 2, 3, 4])
     values = []
     for _ in range(nv):
         if rng.random() < 0.6:
             t = rng.choice(["%", "%", "!", "#", "&"])
             if t == "%":
-                v = rng.choice([0, 1, 7, 12, 123, -5, -42, 999, 1234])
+                # -123 / -999: the sign ends up where a thousands separator is written in the format
+                v = rng.choice([0, 1, 7, 12, 123, -5, -42, 999, 1234, -123, -999, -1000])
             elif t == "&":
-                v = rng.choice([40000, 123456, -70000])
+                v = rng.choice([40000, 123456, -70000, -123456, -100000])
             else:
                 v = Fraction(rng.choice([1, 3, 5, 7, 9, 11, 13, 101, -3, -9]), rng.choice([4, 8, 16]))
                 if v.denominator == 1:
